@@ -76,6 +76,8 @@ def _err_kw(c: Dict[str, Any]) -> str:
         return ", error=HUB.errinst({!r})".format(c["id"])
     if err == "factory":
         return ", error=e_{}".format(c["id"])
+    if err == "method":
+        return ", error=EHI_{}.make".format(c["id"])
     raise ValueError(err)
 
 
@@ -106,9 +108,20 @@ def render_helpers(c: Dict[str, Any], role: str, out: List[str]) -> None:
                 cid, ", ".join(args), cid, got_text(args)))
         elif form == "aw":
             out.append("def c_{}({}):\n    return HUB.acond({!r}, {})\n".format(cid, ", ".join(args), cid, got_text(args)))
+    def earg_sig(eargs):
+        # parameters of the factory that name call values may carry defaults; they must receive the call values all the same
+        dflt = [n for n in eargs if n in c.get("edefaults", [])]
+        plain = [n for n in eargs if n not in dflt]
+        return plain + ["{}=EDEFAULT".format(n) for n in dflt]
+
     if c.get("err") == "factory":
         eargs = c.get("eargs", [])
-        out.append("def e_{}({}):\n    return HUB.error({!r}, {})\n".format(cid, ", ".join(eargs), cid, got_text(eargs)))
+        out.append("def e_{}({}):\n    return HUB.error({!r}, {})\n".format(cid, ", ".join(earg_sig(eargs)), cid, got_text(eargs)))
+    if c.get("err") == "method":
+        # the error given as a bound method (its receiver is deliberately not called ``self``: the factory may ask for ``self``)
+        eargs = c.get("eargs", [])
+        out.append("class EH_{c}:\n    def make({a}):\n        return HUB.error({c!r}, {g})\n\n\nEHI_{c} = EH_{c}()\n".format(
+            c=cid, a=", ".join(["receiver_"] + earg_sig(eargs)), g=got_text(eargs)))
 
 
 def deco_text(kind: str, c: Dict[str, Any]) -> str:
@@ -210,6 +223,8 @@ PRELUDE = '''\
 import abc
 import functools
 import icontract
+
+EDEFAULT = object()  # default value of error-factory parameters that name call values
 
 def foreign(tag):
     def deco(func):
